@@ -459,7 +459,11 @@ def totality(tier='quick', seed=0):
                 except Exception:
                     pass
     for t in ['1 - x = @v.y', '1 - x = y', '(1 - x) + 1 = y', '2 * x = y', '0 ** x = 1', 'len([1 to x]) > 0', 'gcd({4, 6}) = 2',
-              'max({1}) = 1', 'min({x}) = x', 'sum({}) = 0', 'int("5") > 0', 'float("2.5") > x', 'int("-3") = y']:
+              'max({1}) = 1', 'min({x}) = x', 'sum({}) = 0', 'int("5") > 0', 'float("2.5") > x', 'int("-3") = y',
+              # a quantified variable that occurs only inside index positions
+              'not (exists i in [0 to 3]: xs[@i] > 0)', 'forall i in [0 to 2]: xs[@i] > 0',
+              'not (exists i in idx: (xs[@i] > 0 or @A.ok))', 'forall i in idx: (xs[@i] > 0 and @A.arr[@i] = 1)',
+              'not (exists i in idx: xs[ys[@i]] > @A.z)']:
         try:
             exprs.append(ep.parse(t))
         except Exception:
